@@ -18,10 +18,12 @@ package funnel
 
 import (
 	"context"
+	"fmt"
 	"time"
 
 	"github.com/conduitio/conduit-commons/opencdc"
 	"github.com/conduitio/conduit/pkg/foundation/cerrors"
+	"github.com/conduitio/conduit/pkg/foundation/cerrors/conduiterr"
 	"github.com/conduitio/conduit/pkg/foundation/log"
 )
 
@@ -88,6 +90,25 @@ func (t *SourceTask) Do(ctx context.Context, b *Batch) error {
 	recs, err := t.source.Read(ctx)
 	if err != nil {
 		return cerrors.Errorf("failed to read from source: %w", err)
+	}
+
+	// Every record must carry a non-empty position, it is what gets acked to
+	// the source. Worker.Ack/Nack refuse an empty one only once the record is
+	// about to be acked (see validateAckPositions); by then tasks have already
+	// acted on it, and a processor splitting a record that has no position
+	// breaks Batch.SplitRecord's invariant (a panic that takes down the whole
+	// process). Refuse the batch here, before any task sees it. Nothing was
+	// acked, so the records are redelivered once the connector is fixed.
+	for i, r := range recs {
+		if len(r.Position) != 0 {
+			continue
+		}
+		ce := conduiterr.New(CodeEmptySourcePosition, fmt.Sprintf(
+			"source returned a record with an empty position (record %d of %d)", i, len(recs),
+		))
+		ce.Suggestion = "this is a source-connector bug: every record must carry a distinct, non-empty " +
+			"position. No records of this batch were processed or acked, they will be redelivered"
+		return ce
 	}
 
 	t.metrics.Observe(recs, start)
